@@ -375,6 +375,8 @@ fn build(g: &Grammar, thorough: bool) -> Vec<C2Case> {
     // IF_DATA described by the file's A2ML
     let mut ic = Vec::new();
     c01::ifdata_cases(g, &mut ic);
+    // comments at every gap inside IF_DATA payloads (they may be dropped, the tokens may not)
+    c01::ifdata_gap_cases(false, true, &mut ic);
     for c in ic {
         out.push(C2Case { case: c, keep: vec![], limit: None });
     }
